@@ -11,7 +11,9 @@
    and include lists for main, a and b.  An include is a path specification (relative to the entry directory,
    absolute, with .. components, or a glob); Resolve gives the files it names, in glob order.
    Expected(includes) is either an error or the depth-first pre-order of the files, which is the order in which
-   their items appear in every merged section. *)
+   their items appear in every merged section.
+   One file (odd) may additionally carry a section with a name dae does not know: merging must not lose it (it is
+   config.New that rejects it afterwards - ConfBuild.tla), wherever in the include graph the file sits. *)
 EXTENDS Integers, Sequences, FiniteSets, TLC, Json
 
 Files == {"main", "a", "z", "c", "b", "p", "o"}
@@ -28,12 +30,14 @@ Resolve(s) == CASE s = "a.dae" -> <<"a">> [] s = "z.dae" -> <<"z">> [] s = "sub/
                 [] s = "*.dae" -> <<"a", "main", "z">> [] s = "sub/*.dae" -> <<"b">> [] s = "../*.dae" -> <<"p">>
                 [] s = "*" -> <<"a", "main", "z">> [] s = "missing.dae" -> <<>> [] s = "../E/z.dae" -> <<"z">>
 
-VARIABLES inc      \* [{"main","a","b"} -> Seq(Specs)]
-vars == <<inc>>
+VARIABLES inc,     \* [{"main","a","b"} -> Seq(Specs)]
+          odd      \* the file that carries a section of unknown name ("none": no file does)
+vars == <<inc, odd>>
 MainLists == {<<>>} \cup {<<s>> : s \in Specs} \cup {<<s, t>> : s \in Specs, t \in Specs}
 ALists == {<<>>, <<"sub/b.dae">>, <<"*.dae">>, <<"../p.dae">>, <<"z.dae">>}
 BLists == {<<>>, <<"a.dae">>, <<"ABS:a">>, <<"z.dae">>}
-Init == inc \in {[f \in {"main", "a", "b"} |-> IF f = "main" THEN m ELSE IF f = "a" THEN a ELSE b] : m \in MainLists, a \in ALists, b \in BLists}
+Init == /\ odd \in {"none", "main", "a", "z", "b"}
+        /\ inc \in {[f \in {"main", "a", "b"} |-> IF f = "main" THEN m ELSE IF f = "a" THEN a ELSE b] : m \in MainLists, a \in ALists, b \in BLists}
 Next == UNCHANGED vars
 Spec == Init /\ [][Next]_vars
 
@@ -72,6 +76,7 @@ ReadsInScope == \A f \in Expected.reads : IsDae(f) /\ InScope(f)
 OrderNoDup == \A i, j \in 1..Len(Expected.order) : i # j => Expected.order[i] # Expected.order[j]
 
 Vector == [inc |-> [f \in {"main", "a", "b"} |-> inc[f]], err |-> Expected.err, order |-> Expected.order,
-           reads |-> Expected.reads, diamond |-> Diamond]
+           reads |-> Expected.reads, diamond |-> Diamond,
+           odd |-> odd, oddMerged |-> (Expected.err = "" /\ \E i \in 1..Len(Expected.order) : Expected.order[i] = odd)]
 Emit == PrintT(<<"VECTOR", ToJson(Vector)>>)
 =============================================================================
